@@ -26,6 +26,7 @@ func checkC12(c *Ctx, r *Report) {
 	borrow(c, r, func(c *Ctx, r *Report) { c15Loop(c, r, "Transfer.inAxfr"); c15Loop(c, r, "Transfer.inIxfr") }, "C15.R2.no-error-guards", "C12.R2.transfer-id", 2, "every envelope of a transfer is delivered error-free only when its ID equals the query's", func(k string) bool { return strings.Contains(k, "q.Id == in.Id") }, "a stream exchange accepts a reply whose ID differs instead of failing with ErrId")
 	borrow(c, r, checkC16, "C16.R2.no-buffer-alias", "C12.R4.no-buffer-alias", 100, "the decoded request shares no memory with the recycled receive buffer", nil, "the handler sees its request change when the buffer, back in the pool, receives another client's datagram")
 	borrow(c, r, c14R1, "C14.R1.short-packet", "C12.R2.short-packet", 1, "only datagrams shorter than a header are dropped before the handler", nil, "a request of exactly twelve octets (a bare header) never reaches its handler and gets no reply")
+	writeDeadline(c, r, "C12.R2.write-deadline")
 }
 
 func isConnRead(call *ssa.Call) bool {
